@@ -955,22 +955,51 @@ def r4(ctx: Ctx, rep: Report):
             if okp and isinstance(sent, ast.Name):
                 okp = _derives_from_request_bytes(p, sends[0], sent.id)
             elif okp:
-                okp = sent is not None and any(isinstance(x, ast.Call) and (call_chain(x) or ("",))[-1] == "request_bytes" for x in ast.walk(sent))
+                okp = sent is not None and _expr_from_request_bytes(p, sends[0], sent, 0)
             rep.check(okp, "C03.R4", "stamp-per-send:%s:%s" % (sr.short, p.describe()), sr.loc(), "%s sends the bytes of one request_bytes() call" % sr.short,
                       bad="%s does not send the result of exactly one command.request_bytes() call per transmission (retransmissions must carry a new transaction id) [path %s]" % (sr.short, p.describe()))
 
 
+def _is_rb(x) -> bool:
+    return isinstance(x, ast.Call) and (call_chain(x) or ("",))[-1] == "request_bytes"
+
+
+def _expr_from_request_bytes(p, upto: int, v: ast.expr, depth: int, skip: str = "") -> bool:
+    """The expression *v*, evaluated before event *upto*, contains the result of a request_bytes() call: directly,
+    through a local, or as the value an inlined helper returns."""
+    if any(_is_rb(x) for x in ast.walk(v)):
+        return True
+    for x in ast.walk(v):
+        if isinstance(x, ast.Call):
+            k = next((k for k in range(upto - 1, -1, -1) if p.events[k].kind == "exit" and p.events[k].node is x), None)
+            if k is None:
+                continue
+            d = 0
+            for m in range(k - 1, -1, -1):
+                e = p.events[m]
+                if e.kind == "exit":
+                    d += 1
+                elif e.kind == "enter":
+                    if d == 0:
+                        break
+                    d -= 1
+                elif e.kind == "iret" and d == 0 and e.node.value is not None:
+                    if _expr_from_request_bytes(p, m, e.node.value, depth + 1):
+                        return True
+                    break
+    return any(_derives_from_request_bytes(p, upto, x.id, depth + 1) for x in ast.walk(v) if isinstance(x, ast.Name) and x.id != skip)
+
+
 def _derives_from_request_bytes(p, upto: int, name: str, depth: int = 0) -> bool:
     """The value of *name* at event *upto* is computed (through the assignments on the path) from a request_bytes() call."""
-    if depth > 6:
+    if depth > 8:
         return False
-    for ev in reversed(p.events[:upto]):
-        if ev.kind == "stmt" and isinstance(ev.node, ast.Assign) and any(isinstance(t, ast.Name) and t.id == name for t in ev.node.targets):
+    for idx in range(upto - 1, -1, -1):
+        ev = p.events[idx]
+        if ev.kind == "stmt" and isinstance(ev.node, (ast.Assign, ast.AnnAssign)) and ev.node.value is not None \
+                and any(isinstance(t, ast.Name) and t.id == name for t in (ev.node.targets if isinstance(ev.node, ast.Assign) else [ev.node.target])):
             v = ev.node.value
-            if any(isinstance(x, ast.Call) and (call_chain(x) or ("",))[-1] == "request_bytes" for x in ast.walk(v)):
-                return True
-            idx = p.events.index(ev)
-            return any(_derives_from_request_bytes(p, idx, x.id, depth + 1) for x in ast.walk(v) if isinstance(x, ast.Name) and x.id != name) or \
+            return _expr_from_request_bytes(p, idx, v, depth, skip=name) or \
                 any(isinstance(x, ast.Name) and x.id == name for x in ast.walk(v)) and _derives_from_request_bytes(p, idx, name, depth + 1)
     return False
 
